@@ -466,6 +466,13 @@ func (e *PPA) Resolve(st *State, rv RV) RV {
 				if cv, ok := st.canon[key]; ok {
 					return cv
 				}
+				// a local variable that is not captured by any closure and has not been assigned on this
+				// path still holds its zero value (named results left at their zero values by a bare return)
+				if al, isAl := e.resolveAddr(st, RV{rv.F, v.X}).V.(*ssa.Alloc); isAl && !capturedByClosure(al) {
+					if z := zeroConst(deref(al.Type())); z != nil {
+						return RV{rv.F, z}
+					}
+				}
 				st.canon[key] = rv
 				return rv
 			}
@@ -772,7 +779,7 @@ func (e *PPA) exec(fr *Frame, b *ssa.BasicBlock, i int, st *State, k cont) {
 			}
 		case *ssa.Field:
 			if e.TraceLoads {
-				e.emit(st, Ev{Label: "load:" + types.TypeString(in.X.Type(), shortQ) + "." + fieldName(in.X.Type(), in.Field), In: in, F: fr, Base: e.Resolve(st, RV{fr, in.X}), Field: fieldVar(in.X.Type(), in.Field)})
+				e.emit(st, Ev{Label: "load:" + normType(types.TypeString(in.X.Type(), shortQ)) + "." + fieldName(in.X.Type(), in.Field), In: in, F: fr, Base: e.Resolve(st, RV{fr, in.X}), Field: fieldVar(in.X.Type(), in.Field)})
 			}
 		case *ssa.Select:
 			n := len(in.States)
@@ -1367,7 +1374,7 @@ func qualField(addr ssa.Value) string {
 		return Expr(addr)
 	}
 	t := deref(fa.X.Type())
-	return types.TypeString(t, shortQ) + "." + fieldName(fa.X.Type(), fa.Field)
+	return normType(types.TypeString(t, shortQ)) + "." + fieldName(fa.X.Type(), fa.Field)
 }
 
 // ---------------- trace helpers ----------------
@@ -1554,4 +1561,46 @@ func finalField(fld *types.Var, fr *Frame) bool {
 	}
 	finalFieldMemo[fld] = res
 	return res
+}
+
+func capturedByClosure(al *ssa.Alloc) bool {
+	if al.Referrers() == nil {
+		return true
+	}
+	for _, r := range *al.Referrers() {
+		switch x := r.(type) {
+		case *ssa.MakeClosure:
+			return true
+		case *ssa.Store:
+			if x.Val == ssa.Value(al) {
+				return true // address stored somewhere
+			}
+		case ssa.CallInstruction:
+			return true // address passed to a call
+		case *ssa.FieldAddr, *ssa.IndexAddr:
+			// composite cells are tracked field by field
+			return true
+		}
+	}
+	return false
+}
+
+// zeroConst: the zero value of a basic, pointer, interface, slice, map, chan or func type as a constant.
+func zeroConst(t types.Type) *ssa.Const {
+	switch u := t.Underlying().(type) {
+	case *types.Basic:
+		switch {
+		case u.Info()&types.IsBoolean != 0:
+			return ssa.NewConst(constant.MakeBool(false), t)
+		case u.Info()&types.IsInteger != 0:
+			return ssa.NewConst(constant.MakeInt64(0), t)
+		case u.Info()&types.IsString != 0:
+			return ssa.NewConst(constant.MakeString(""), t)
+		case u.Info()&types.IsFloat != 0:
+			return ssa.NewConst(constant.MakeFloat64(0), t)
+		}
+	case *types.Pointer, *types.Interface, *types.Slice, *types.Map, *types.Chan, *types.Signature:
+		return ssa.NewConst(nil, t)
+	}
+	return nil
 }
